@@ -1209,6 +1209,20 @@ func (vc *VC) backEdgeChecks(hb *ssa.BasicBlock, edge Term) {
 		}
 		vc.checkG("inv-preserved", token.NoPos, "loop "+ls.Key+": "+inv.Text, edge, t.t, pr)
 	}
+	for _, st := range ls.Stable {
+		ce1 := vc.envAt(hb, vc.cur, sub)
+		t1 := ce1.eval(st.Expr)
+		ce0 := vc.envAt(hb, vc.cur, nil)
+		t0 := ce0.eval(st.Expr)
+		if ce1.err != nil || ce0.err != nil {
+			continue
+		}
+		pr := props
+		if len(st.Props) > 0 {
+			pr = st.Props
+		}
+		vc.checkG("inv-preserved", token.NoPos, "loop "+ls.Key+": stable "+st.Text, edge, Eq(t1.t, t0.t), pr)
+	}
 	hi := vc.hdrState[h]
 	for i, d := range ls.Decreases {
 		if hi == nil || i >= len(hi.decr) {
